@@ -24,13 +24,15 @@ Pool == [ c8 |-> <<"drsp","t8","+">>,  c16 |-> <<"drsp","t16","+">>, cself |-> <
           ra8 |-> <<".cfa","t8","-","^">>, k |-> <<"t4198400">>, bad |-> <<"t1","+">>,
           s16 |-> <<".cfa","t16","-","^">>, unk |-> <<"dnope">>, cal |-> <<"drbp">> ]
 \* label spelling -> register (documented: "$" prefix is optional and names the same register)
-Labels == [ Lcfa |-> "cfa", Lra |-> "ra", Ldrbx |-> "rbx", Lbrbx |-> "rbx", Ldrbp |-> "rbp" ]
+\* "$.cfa:" and "$.ra:" are NOT the CFA / return-address labels: they name registers that do not exist, and their rules have no effect
+Labels == [ Lcfa |-> "cfa", Lra |-> "ra", Ldrbx |-> "rbx", Lbrbx |-> "rbx", Ldrbp |-> "rbp", Ljcfa |-> "jcfa", Ljra |-> "jra" ]
 P(l, e) == [l |-> l, e |-> e]
 Pairs == {P("Lcfa", e) : e \in {"c8","c16","cself","und"}} \cup {P("Lra", e) : e \in {"ra8","k","bad"}}
          \cup {P("Ldrbx", e) : e \in {"s16","unk","und","k"}} \cup {P("Lbrbx", e) : e \in {"s16","und"}}
-         \cup {P("Ldrbp", e) : e \in {"s16","cal"}}
+         \cup {P("Ldrbp", e) : e \in {"s16","cal"}} \cup {P("Ljcfa", e) : e \in {"c16","und"}} \cup {P("Ljra", e) : e \in {"k","bad"}}
 BaseInits == { <<>>, <<P("Lcfa","c8"), P("Lra","ra8")>>, <<P("Lcfa","c16"), P("Lra","ra8"), P("Ldrbx","s16")>>,
-               <<P("Lra","ra8")>>, <<P("Lcfa","c8")>>, <<P("Lcfa","c16"), P("Lra","k"), P("Lbrbx","und"), P("Ldrbp","cal")>> }
+               <<P("Lra","ra8")>>, <<P("Lcfa","c8")>>, <<P("Lcfa","c16"), P("Lra","k"), P("Lbrbx","und"), P("Ldrbp","cal")>>,
+               <<P("Ljcfa","c8"), P("Ljra","ra8")>>, <<P("Lcfa","c8"), P("Lra","ra8"), P("Ljcfa","c16"), P("Ljra","k")>> }
 InitAddr == 256  InitSize == 256
 DeltaAddrs == {272, 288}
 Lookups == <<255, 256, 271, 272, 273, 287, 288, 511, 512>>
@@ -48,7 +50,7 @@ Next == AddPair \/ StartDelta
 Spec == Init /\ [][Next]_vars
 
 \* ---- documented semantics ----
-Regs == {"cfa", "ra", "rbx", "rbp"}
+Regs == {"cfa", "ra", "rbx", "rbp", "jcfa", "jra"}
 \* Orders in which the records applying at lookup address lk may be applied: INIT first, then the deltas
 \* with address <= lk by ascending address.  Deltas with EQUAL addresses have no documented relative
 \* order, so both orders are considered; the outcome is specified only when they agree.
